@@ -5,6 +5,7 @@ let () =
     | "codec" -> L_codec.run
     | "prog" -> L_prog.run
     | "sched" -> L_sched.run
+    | "clock" -> L_clock.run
     | _ -> prerr_endline "usage: vmodel <codec>"; exit 2 in
   try
     while true do
